@@ -274,7 +274,7 @@ pub fn record(seed: u64, n: usize, cli: Option<&str>) -> Vec<J> {
                     }
                     Err(m) => (json!({"k":"fail","m":m}), false),
                 };
-                out.push(json!({"ev":"fmt","src":path,"driver":name,"width":w.map(|x| x as i64).unwrap_or(-1),"before":stmts_tree(&before),"after":after,"idempotent":idem}));
+                out.push(json!({"ev":"fmt","src":path,"driver":name,"width":w.map(|x| x as i64).unwrap_or(-1),"before":stmts_tree(&before),"after_ok": after.is_array(),"after": if after.is_array() { after.clone() } else { json!([]) },"after_error": if after.is_array() { json!("") } else { after["m"].clone() },"idempotent":idem}));
             }
         }
     }
